@@ -2500,6 +2500,28 @@ def flavour_case(ctx, case):
                     res = roundtrip(spec, flavour)
                     for kind, (e_, o_) in expand_kinds(spec, res).items():
                         hit(flavour, kind, "all_values_empty:" + case["what"], e_, o_)
+            elif sub == "strings":
+                # two awkward features in one value (handled by different branches of the text writer)
+                spec = apply_devs(((2, 1), (0, 0)), PALETTES[case["pal"]], [["bonds", None, "path"], ["extra", None, "plain"]])
+                v = TWO_FEATURES[case["label"]]
+                pos = case["pos"]
+                if pos == "extra":
+                    spec["extra"][1] = v
+                elif pos == "atom_name":
+                    spec["atoms"][2][5] = v
+                else:
+                    spec["atoms"][2][{"chain_id": 0, "ins_code": 2, "res_name": 3}[pos]] = v
+                res = roundtrip(spec, flavour)
+                for kind, (e_, o_) in expand_kinds(spec, res).items():
+                    hit(flavour, kind, "%s:%s" % (pos, case["label"]), e_, o_)
+            elif sub == "identity":
+                if flavour == "cif":
+                    continue
+                identity_check(case, hit)
+            elif sub == "resize":
+                resize_check(case, flavour, hit)
+            elif sub == "derived":
+                derived_check(case, flavour, hit)
             else:
                 raise ValueError(case)
     ctx.ev(1, 1)
@@ -2516,6 +2538,225 @@ def flavour_case(ctx, case):
             continue
         ctx.violation("flavour|%s|%s|%s|%s" % (fl, sub, failure, cls),
                       "%s: %s (%s)" % (sub, failure, cls), case, ent["e"], ent["o"])
+
+
+TWO_FEATURES = {
+    # label: value; features: single quote, double quote, blank, tab, special first character,
+    # reserved word prefix, (extra field only) line break
+    "squote+dquote": "a'b\"c", "squote+blank": "5' end", "squote_then_blank+dquote_free": "a' b",
+    "squote+tab": "a'\tb", "squote+special_start": "#a'b", "leading_squote+blank": "'a b",
+    "squote+reserved": "data_a'b", "dquote+blank": 'd" q', "dquote+tab": 'a"\tb', "dquote+special_start": '$a"b',
+    "leading_dquote+blank": '"a b', "dquote+reserved": 'loop_"x', "blank+tab": "a \tb",
+    "blank+special_start_underscore": "_a b", "blank+special_start_semicolon": ";a b",
+    "blank+special_start_bracket": "[a b", "blank+special_start_hash": "#a b", "blank+reserved": "save_ x",
+    "tab+special_start": "#a\tb", "tab+reserved": "global_\tx", "squote+dquote+blank": "a' \"b",
+    "leading_blank+squote": " 'a", "trailing_blank+squote": "a' ", "squote+dquote+special_start": "_'\"",
+    "newline+squote": "a'b\nc", "newline+dquote": "a\"b\nc", "newline+blank": "a b\nc d",
+}
+STRING_POSITIONS = ("chain_id", "res_name", "atom_name", "ins_code", "extra")
+
+
+def identity_check(case, hit):
+    """compress() returns a NEW object at every level: re-binding edits of the result (delete / add /
+    replace an element) leave the operand as it was, also where nothing could be compressed."""
+    from biotite.structure.io import pdbx
+
+    spec = apply_devs(((1,), (0,)), PALETTES[case["pal"]], []) if case["degenerate"] else flavour_base(0, case["pal"])
+    f = pdbx.BinaryCIFFile()
+    _put(f, spec)
+    before = _dump("bcif", f)
+    level = case["level"]
+    operand = {"file": f, "block": f.block, "category": f.block["atom_site"],
+               "column": f.block["atom_site"]["Cartn_x"], "data": f.block["atom_site"]["Cartn_x"].data}[level]
+    result = pdbx.compress(operand)
+    if result is operand:
+        hit("bcif", "compress_returns_its_operand", level, "a new object", "the operand")
+        return
+    if level == "file":
+        result["added"] = pdbx.BinaryCIFBlock()
+        del result["structure"]
+    elif level == "block":
+        del result["atom_site"]
+        result["added"] = pdbx.BinaryCIFCategory({"x": np.array([1, 2])})
+    elif level == "category":
+        del result["Cartn_x"]
+        result["added"] = np.arange(result.row_count)
+    elif level == "column" and result.mask is None:
+        pass  # columns and data have no re-binding edits; identity was the check
+    after = _dump("bcif", f)
+    if after != before:
+        hit("bcif", "operand_changed_by_editing_the_compress_result", level, "operand as before", "changed")
+
+
+def size_spec(n_res, models):
+    """n_res two-atom residues with different names (n_res chem_comp_bond rows), chained by n_res - 1
+    inter-residue bonds, `models` models: every looped table has another length for another size."""
+    atoms, coord, bonds = [], [], []
+    for r in range(n_res):
+        for k in range(2):
+            atoms.append(["A", r + 1, "", "R%d" % r, 1, "C%d" % (k + 1), "C"])
+            a = len(coord)
+            coord.append([1.5 * a, -0.5 * a, float(n_res)])
+        bonds.append([2 * r, 2 * r + 1, 1 + r % 3])
+        if r:
+            bonds.append([2 * r - 1, 2 * r, 1 + r % 2])
+    cs = [[[x + 8.0 * m for x in at] for at in coord] for m in range(models)]
+    return {"atoms": atoms, "coord": cs, "stack": True, "box": None, "opt": {"charge": [(-1) ** i for i in range(len(atoms))]},
+            "extra": None, "bonds": bonds}
+
+
+SIZES = [(3, 2), (4, 2), (4, 3), (3, 3), (2, 2)]
+
+
+def resize_check(case, flavour, hit):
+    """Three writes of other sizes on one file object; between the writes every public read that may
+    cache a count or a length; the last state must equal a fresh file."""
+    from biotite.structure.io import pdbx
+
+    File, _ = _classes(flavour)
+    f = File()
+    specs = [size_spec(*SIZES[k]) for k in case["sizes"]]
+    for k, spec in enumerate(specs):
+        _put(f, spec)
+        if k == 0 and case["parsed"]:
+            f = _load(flavour, _dump(flavour, f))
+        if k < len(specs) - 1 or case["probe_last"]:
+            if case["probe"] in ("counts", "all"):
+                for cat in f.block.values():
+                    cat.row_count
+                    for col in cat.values():
+                        len(col)
+                pdbx.get_model_count(f)
+            if case["probe"] in ("read", "all"):
+                pdbx.get_structure(f, include_bonds=True, extra_fields=["charge"])
+                pdbx.get_structure(f, model=-1)
+            if case["probe"] in ("dump", "all"):
+                _dump(flavour, f)
+    last = specs[-1]
+    fresh = File()
+    _put(fresh, last)
+    fields = _fields(None, last)
+    where = {"file": f, "block_in_file": "structure", "fresh_block_in_file": "structure",
+             "fresh_reparsed": _load(flavour, _dump(flavour, fresh))}
+    fails, _ = reuse_compare(flavour, f, None, fresh, None, None, last, where)
+    if pdbx.get_model_count(f) != len(last["coord"]):
+        fails["model_count"] = (len(last["coord"]), pdbx.get_model_count(f))
+    rc = {k: f.block[k].row_count for k in f.block.keys()}
+    rcf = {k: fresh.block[k].row_count for k in fresh.block.keys()}
+    if rc != rcf:
+        fails["row_count"] = (rcf, rc)
+    cls = "sizes=%s,probe=%s" % ("".join("<" if b > a else ">" if b < a else "=" for a, b in zip(
+        [2 * SIZES[k][0] * SIZES[k][1] for k in case["sizes"]][:-1], [2 * SIZES[k][0] * SIZES[k][1] for k in case["sizes"]][1:])),
+        case["probe"])
+    for k, v in fails.items():
+        hit(flavour, k, cls, v[0], v[1])
+
+
+DERIVED_OPS = ("copy", "mask", "slice_step2", "reversed", "index_array_unsorted", "stack_first", "stack_last",
+               "stack_slice_depth1", "stack_atom_mask", "stack_atoms_reversed", "concatenate_two", "concatenate_one",
+               "stack_of_arrays", "read_cif_model1", "read_bcif_stack", "read_cif_last_model", "read_altloc_filtered",
+               "from_template", "repeat")
+
+
+def derived_structure(case):
+    """A structure handed out by the library itself (one operation applied to a plain structure)."""
+    import biotite.structure as struc
+    from biotite.structure.io import pdbx
+
+    pal = case["pal"]
+    base = flavour_base(0, pal)
+    base["box"] = None
+    sbase = flavour_base(1, pal)
+    sbase["box"] = None
+    a, st = build(base), build(sbase)
+    op = case["op"]
+    n = a.array_length()
+    mask = np.array([True, False, True, True][:n])
+    if op == "copy":
+        return a.copy()
+    if op == "mask":
+        return a[mask]
+    if op == "slice_step2":
+        return a[::2]
+    if op == "reversed":
+        return a[::-1]
+    if op == "index_array_unsorted":
+        return a[np.array([2, 0, 3])]
+    if op == "stack_first":
+        return st[0]
+    if op == "stack_last":
+        return st[-1]
+    if op == "stack_slice_depth1":
+        return st[1:2]
+    if op == "stack_atom_mask":
+        return st[:, mask]
+    if op == "stack_atoms_reversed":
+        return st[:, ::-1]
+    if op in ("concatenate_two", "concatenate_one"):
+        b = a.copy()
+        b.chain_id[:] = "Z"
+        return struc.concatenate([a, b] if op == "concatenate_two" else [a])
+    if op == "stack_of_arrays":
+        b = a.copy()
+        b.coord += 4.0
+        return struc.stack([a, b])
+    if op in ("read_cif_model1", "read_bcif_stack", "read_cif_last_model"):
+        flavour = "bcif" if "bcif" in op else "cif"
+        File, _ = _classes(flavour)
+        f = File()
+        _put(f, sbase)
+        f = _load(flavour, _dump(flavour, f))
+        model = {"read_cif_model1": 1, "read_bcif_stack": None, "read_cif_last_model": -1}[op]
+        return pdbx.get_structure(f, model=model, include_bonds=True, extra_fields=_fields(None, sbase)[0])
+    if op == "read_altloc_filtered":
+        tb, drop = sel_table({"names": 0, "alts": ["A", "B", "."], "occ": [1, 0, 2], "r2": "BA", "models": 2,
+                              "variant": "full"})
+        f = table_read(table_cats(tb, drop), "cif")
+        return pdbx.get_structure(f, altloc="occupancy", include_bonds=True, extra_fields=["atom_id", "b_factor", "occupancy", "charge"])
+    if op == "from_template":
+        return struc.from_template(a, st.coord + 2.0)
+    if op == "repeat":
+        return struc.repeat(a[:2], np.stack([a.coord[:2], a.coord[:2] + 32.0]))
+    raise ValueError(op)
+
+
+def derived_check(case, flavour, hit):
+    """set_structure(op(x)) -> file -> get_structure must return op(x), whatever shape op(x) has."""
+    from biotite.structure.io import pdbx
+    import biotite.structure as struc
+
+    d = derived_structure(case)
+    if case["op"] == "repeat":
+        # repeated atoms carry repeated identifiers: give the copies another chain (public attribute)
+        d.chain_id[2:] = "Y"
+    before = _snapshot(d)
+    want = observe(d)
+    cats = d.get_annotation_categories()
+    extra = [c for c in cats if c not in ("chain_id", "res_id", "ins_code", "res_name", "hetero", "atom_name", "element",
+                                          "atom_id", "b_factor", "occupancy", "charge")]
+    read_extra = [c for c in ("atom_id", "b_factor", "occupancy", "charge") if c in cats] + extra
+    File, _ = _classes(flavour)
+    f = File()
+    pdbx.set_structure(f, d, include_bonds=d.bonds is not None, extra_fields=extra)
+    if case.get("compress") and flavour == "bcif":
+        f = pdbx.compress(f)
+    if _snapshot(d) != before:
+        hit(flavour, "argument_modified_by_set_structure", case["op"], "unchanged", "changed")
+    g = _load(flavour, _dump(flavour, f))
+    is_stack = isinstance(d, struc.AtomArrayStack)
+    got = observe(pdbx.get_structure(g, model=None if is_stack else 1, include_bonds=d.bonds is not None,
+                                     extra_fields=read_extra))
+    for k in ("kind", "n", "depth", "coord", "bonds", "box"):
+        if not _same(want.get(k), got.get(k)):
+            hit(flavour, "differs_%s" % k, case["op"], str(want.get(k))[:300], str(got.get(k))[:300])
+            return
+    for c in sorted(set(want["annot"]) | set(got["annot"])):
+        x, y = want["annot"].get(c), got["annot"].get(c)
+        if c in extra and x is not None:
+            x = [str(v) for v in x]  # extra fields come back as strings (documented)
+        if not _same(x, y):
+            hit(flavour, "differs_annot:%s" % c, case["op"], str(x)[:300], str(y)[:300])
+            return
 
 
 def count_class(n):
@@ -2624,6 +2865,25 @@ def flavour_cases(tier, seed):
                 yield {**base, "sub": "args", "model": model, "int_type": int_type, "container": container}
     for what in ("chain_id", "ins_code", "res_name", "atom_name", "element", "extra", "depth0_stack", "length0_stack"):
         yield {**base, "sub": "empty", "what": what}
+    for pos in STRING_POSITIONS:
+        for label, v in TWO_FEATURES.items():
+            if "\n" in v and pos != "extra":
+                continue  # identifiers with line breaks are not generated
+            if pos == "ins_code" and label not in ("squote+dquote", "squote+blank", "dquote+blank", "blank+tab",
+                                                   "squote+dquote+blank", "blank+special_start_hash"):
+                continue
+            yield {**base, "sub": "strings", "pos": pos, "label": label}
+    for level in ("file", "block", "category", "column", "data"):
+        for degenerate in (0, 1):
+            yield {**base, "sub": "identity", "level": level, "degenerate": degenerate}
+    for sizes in itertools.product(range(4), repeat=3):
+        for probe in ("all", "counts") if tier == "quick" else ("all", "counts", "read", "dump", "none"):
+            yield {**base, "sub": "resize", "sizes": list(sizes), "probe": probe, "probe_last": 1, "parsed": sum(sizes) % 2}
+    for sizes in ((4, 0, 4), (0, 4, 0), (4, 4, 0)):  # down to / up from a one-row struct_conn
+        for probe in ("all", "counts"):
+            yield {**base, "sub": "resize", "sizes": list(sizes), "probe": probe, "probe_last": 1, "parsed": 0}
+    for op in DERIVED_OPS:
+        yield {**base, "sub": "derived", "op": op, "compress": 1}
     for refusal in ("zero_model", "model_above", "model_below", "bad_altloc", "missing_extra_field", "missing_block"):
         for stack in (0, 1):
             for parsed in (0, 1):
